@@ -237,20 +237,26 @@ Definition corr_C13_one (inp : list Z) : list Z :=
       end
     | None => bad_input
     end
-  | mode :: cl :: ch :: buf :: hm :: mx :: r =>
+  | mode :: cl :: ch :: buf :: hm :: mx :: r0 =>
+    (* ch = 0 | 1: the chunked flag itself (_body_read called directly);
+       ch = 2: the Transfer-Encoding header value follows, BodyMixin.chunked decides (Chunked.te_chunked) *)
+    match (if Z.eqb ch 2 then dec_str r0 else Some ([], r0)) with
+    | None => bad_input
+    | Some (te, r) =>
     match dec_str r with
     | Some (data, r1) =>
       match dec_list dec_nat_item r1 with
       | Some (sc, _) =>
         let maxb := if Z.eqb hm 0 then None else Some (Z.to_nat mx) in
         let s := stream_init data sc in
-        let chunked := negb (Z.eqb ch 0) in
+        let chunked := if Z.eqb ch 2 then te_chunked te else negb (Z.eqb ch 0) in
         let m := if Z.ltb mode 4 then Gen.errors_map else [] in
         if Z.eqb mode 0 || Z.eqb mode 4 then enc_resp (request_body_with m s (Z.to_nat buf) maxb cl chunked)
         else enc_tresp (form_text_with m s (Z.to_nat buf) maxb cl chunked)
       | None => bad_input
       end
     | None => bad_input
+    end
     end
   | _ => bad_input
   end.
